@@ -187,6 +187,57 @@ def r6_3_wiring(ctx, prog):
     ctx.ob("R6.3", "on_timeout-uses-now", okk and n >= 1, "on_timeout passes the current instant to next_rto and timeouts.add (%d re-arms)" % n, info["where"])
 
 
+def r6_5_default_schedule(ctx, prog, configs=((7, 16), (1, 1), (3, 4), (9, 16))):
+    """thorough: constant propagation (abstract interpretation with concrete Rc / Rm and a symbolic RTO) through
+    successive next_rto calls: with concrete counters every call has exactly one feasible path, so the sequence of
+    multipliers is a static fact of the code."""
+    from ..absint import Adt, Const, Top
+    ctx.rule("R6.5", "the multiplier sequence produced by RtoCalculator for concrete (Rc, Rm) and symbolic RTO, by constant "
+                     "propagation through Rc+1 successive calls, is 1, 2, 4, ..., 2^(Rc-2), Rm, then None; for the defaults "
+                     "(7, 16) its prefix sums x 500 ms are 0, 500, 1500, 3500, 7500, 15500, 31500 and the failure point 39500")
+    adt = prog.adt(CALC)
+    names = [f["name"] for f in adt["variants"][0]["fields"]]
+    for rc0, rm0 in configs:
+        state = {"rtt": Top("m.rtt"), "rm": Const(1, "u32"), "rc": Const(rc0, "u32"), "last_rm": Const(rm0, "u32")}
+        seq = []
+        ok = True
+        why = ""
+        for i in range(rc0 + 1):
+            sv = Adt(CALC, 0, [state[n] for n in names])
+            paths, info = C.explore_fn(prog, CALC + "::next_rto", "m", [], self_value=sv)
+            if len(paths) != 1:
+                ok, why = False, "call %d has %d feasible paths with concrete counters" % (i, len(paths))
+                break
+            pa = paths[0]
+            r = C.expr_of(pa, pa.ret)
+            if r == "Option::None":
+                seq.append(None)
+            elif isinstance(r, tuple) and r[0] == "Option::Some" and isinstance(r[1], tuple) and r[1][0] == "Duration::mul" and r[1][1] == "top:m.rtt" and isinstance(r[1][2], int):
+                seq.append(r[1][2])
+            else:
+                ok, why = False, "call %d returns %s" % (i, show(r)[:80])
+                break
+            for w in pa.writes:
+                if w[1] == "m" and len(w[2]) == 1 and w[2][0] in state:
+                    v = C.expr_of(pa, w[3])
+                    if not isinstance(v, int):
+                        ok, why = False, "call %d writes non-constant %s = %s" % (i, w[2][0], show(v)[:60])
+                        break
+                    state[w[2][0]] = Const(v, "u32")
+        exp = [2 ** k for k in range(rc0 - 1)] + [rm0, None] if rc0 >= 1 else [None]
+        if ok and seq != exp:
+            ok, why = False, "multipliers %s, expected %s" % (seq, exp)
+        if ok and (rc0, rm0) == (7, 16):
+            pre = [0]
+            for m in seq[:-1]:
+                pre.append(pre[-1] + m)
+            inst = [x * 500 for x in pre]
+            okd = inst == [0, 500, 1500, 3500, 7500, 15500, 31500, 39500]
+            ok, why = okd, "transmissions at %s ms, failure at %s ms" % (inst[:-1], inst[-1])
+        ctx.ob("R6.5", "schedule:rc=%d,rm=%d" % (rc0, rm0), ok, why or "multipliers %s" % seq)
+    ctx.floor("R6.5", "configurations", len(configs), 4)
+
+
 def check(ctx, env):
     ctx.explanation = (
         "Static: the functions that generate the retransmission schedule are interpreted abstractly and the values they "
@@ -205,3 +256,5 @@ def check(ctx, env):
     from . import codec_rules as K
     K.r11_3_order(ctx, prog, rule="R6.4")
     K.r11_4_pairing(ctx, prog, rule="R6.4")
+    if env.tier == "thorough":
+        r6_5_default_schedule(ctx, prog)
